@@ -129,6 +129,7 @@ unsigned int IOQueue::Read(string *output, unsigned int n) {
     MemoryBlock *block = *iter;
     unsigned int bytes_to_copy = std::min(block->Size(), bytes_remaining);
     output->append(reinterpret_cast<char*>(block->Data()), bytes_to_copy);
+    block->PopFront(bytes_to_copy);
     bytes_remaining -= bytes_to_copy;
     if (block->Empty()) {
       m_pool->Release(block);
